@@ -90,6 +90,11 @@ pub fn run(sc: &Value) -> Value {
             std::fs::create_dir_all(&dest).unwrap();
             std::fs::write(dest.join("existing"), b"old").unwrap();
         }
+        "only-symlinks" => {
+            std::fs::create_dir_all(&dest).unwrap();
+            std::os::unix::fs::symlink("../out/sentinel", dest.join("existing")).unwrap();
+            std::os::unix::fs::symlink("nowhere", dest.join("dangling")).unwrap();
+        }
         _ => {}
     }
     // damage: [{file: archive-relative path | "block:<entry path>", how: delete|empty|garbage}]
